@@ -339,6 +339,9 @@ theorem hardlink_symlink_exclusive (ops : List Op) (e : Entry) (hr : run new ops
   simp only [hardlink, symlink]
   cases h1 : e.has fHARDLINK <;> cases h2 : e.has fSYMLINK <;> simp_all
 
+example : ∃ e, run new [.setSymlink (some [1]), .setLink (some [2]), .copyHardlink none, .setLinkToHardlink] = some e ∧
+    hardlink e = some [2] ∧ symlink e = none := ⟨_, rfl, by decide⟩
+
 /-- On the unrepaired code the property failed: there `copy_hardlink` kept the symlink flag.
 The model of that variant, for the record, and the witness (replayed by the corpus file
 `ent.hardlink-after-symlink.ops`). -/
@@ -416,6 +419,8 @@ list as `sparse_count` leaves it (empty when one block covered the whole file). 
 theorem sparse_iteration (e : Entry) :
     sparseDrain e.sparse.length (sparseReset e).1 = (sparseCount e).1.sparse := sparse_iteration_aux e
 
+example : sparseDrain 2 (sparseReset (sparseAdd (sparseAdd (setSize new 100) 0 10) 20 5)).1 = [(0, 10), (20, 5)] ∧
+    sparseDrain 1 (sparseReset (sparseAdd (setSize new 10) 0 10)).1 = [] := by decide
 example : xattrDrain 5 (xattrReset (xattrAdd (xattrAdd new [97] [1]) [98] [2])).1 = [([98], [2]), ([97], [1])] := by decide
 
 /-! ## clones -/
@@ -438,6 +443,11 @@ theorem clone_eq_history (ops : List Op) (e : Entry) (hr : run new ops = some e)
     obs g (clone e) = obs g e :=
   clone_eq e (run_invariant StatCoherent (fun e e' op hs h => statCoherent_step e e' op hs h) ops new e hr
     (statCoherent_invalid _ rfl)) g
+
+example : ∃ e, run new [.setSize 100, .sparseAdd 10 20, .unsetSize, .xattrAdd [97] [1], .xattrAdd [98] [2], .stat,
+      .setTime .mtime 5 (-1)] = some e ∧
+    obs .sparseBlocks (clone e) = .blocks [(10, 20)] ∧ obs .xattrList (clone e) = .xattrs [([98], [2]), ([97], [1])] :=
+  ⟨_, rfl, by decide⟩
 
 /-- The unrepaired clone re-validated the sparse blocks against the current size and listed
 the extended attributes backwards: its model, and the two witnesses. -/
